@@ -23,7 +23,7 @@ def interesting_counts(r, size):
 
 
 def gen_layout_cases(tier, seed):
-    n = 240 if tier == "quick" else 4000
+    n = 240 if tier == "quick" else 30000
     cases = []
     for k in range(n):
         r = gen.rng(seed, "C14", k)
